@@ -25,6 +25,22 @@ CHECKS['C06'] = dict(
          'the regular expressions that turn reference text into rectangles (C04).',
     technique='Lean 4 proof of a hand-written model + differential correspondence check against the implementation')
 
+CHECKS['C04'] = dict(
+    text=('Lean 4 theorems (XL.Props.C04): column letters <-> numbers are mutually inverse for every natural number '
+          'and every upper-case string (col_number_roundtrip, col_letters_roundtrip, col_letters_injective); the '
+          'canonical name built from a rectangle reads back to that rectangle and is injective, also with the sheet '
+          'id (readBack_name_partial, name_injective_partial, id_injective_partial) for every rectangle that does not '
+          'touch the last row/column or is a whole row/column; X:X collapses (single_cell_name); the single-cell fast '
+          'path equals the general builder (fast_eq_general); boundary_counterexample proves the collisions of the '
+          'excluded class on the model and is replayed on the code as a known finding. The resolution of spellings '
+          '($, case, R1C1, relative offsets, sheet prefixes) to numbers is regular-expression matching in the code: '
+          'it is tied by running every spelling of every generated rectangle (all 16384 columns, rows at the '
+          'boundaries and random) through Range(...).name and Ranges().push and comparing with the model name.'),
+    design='DESIGN.md §3 C04',
+    note=COMMON_NOTE + 'Grid limits are generated from the source. Modelled, not proved: the reference regular '
+         'expressions and schedula DispatchPipe of _range2parts (spelling -> numbers); non-ASCII upper-casing.',
+    technique='Lean 4 proof of a hand-written model + differential correspondence check against the implementation')
+
 NOT_YET = {
 }
 
